@@ -151,34 +151,45 @@ fn reloader_tids() -> Vec<u32> {
 enum V { Exited, Asleep, Spinning, Mixed }
 impl V { fn name(self) -> &'static str { match self { V::Exited => "exited", V::Asleep => "asleep", V::Spinning => "spinning", V::Mixed => "mixed" } } }
 
-/// One measurement window of `samples` samples, `interval` apart.
-fn window(tid: u32, samples: usize, interval: Duration) -> (V, String) {
+/// One measurement window of `samples` samples, `interval` apart, of all the given threads at once.
+fn window(tids: &[u32], samples: usize, interval: Duration) -> Vec<(V, String)> {
     let pid = std::process::id();
-    let first = match task_stat(pid, tid) { Some(x) => x, None => return (V::Exited, "gone".into()) };
-    let (mut r, mut s, mut other) = (0usize, 0usize, 0usize);
-    let mut last_ticks = first.2;
+    // per thread: first ticks (None = already gone), counts of R / S / other, last ticks, gone during the window
+    let mut acc: Vec<(Option<u64>, usize, usize, usize, u64, bool)> = tids.iter().map(|t| {
+        match task_stat(pid, *t) { Some(x) => (Some(x.2), 0, 0, 0, x.2, false), None => (None, 0, 0, 0, 0, true) }
+    }).collect();
     for _ in 0..samples {
-        match task_stat(pid, tid) {
-            None => return (V::Exited, "gone".into()),
-            Some((_, st, ticks)) => { last_ticks = ticks; match st { 'R' => r += 1, 'S' => s += 1, _ => other += 1 } }
+        for (k, t) in tids.iter().enumerate() {
+            if acc[k].5 { continue; }
+            match task_stat(pid, *t) {
+                None => acc[k].5 = true,
+                Some((_, st, ticks)) => { acc[k].4 = ticks; match st { 'R' => acc[k].1 += 1, 'S' => acc[k].2 += 1, _ => acc[k].3 += 1 } }
+            }
         }
+        child::progress();   // the measuring thread sleeps between samples: tell the watchdog we are alive
         std::thread::sleep(interval);
     }
-    let ticks = last_ticks - first.2;
-    let detail = format!("R={r} S={s} other={other} ticks={ticks}");
-    let v = if s == samples && ticks <= 1 { V::Asleep } else if r * 5 >= samples * 4 { V::Spinning } else { V::Mixed };
-    (v, detail)
+    acc.into_iter().map(|(first, r, s, other, last, gone)| {
+        if gone { return (V::Exited, "gone".to_string()); }
+        let ticks = last - first.unwrap_or(last);
+        let detail = format!("R={r} S={s} other={other} ticks={ticks}");
+        let v = if s == samples && ticks <= 1 { V::Asleep } else if r * 5 >= samples * 4 { V::Spinning } else { V::Mixed };
+        (v, detail)
+    }).collect()
 }
 
-fn measure(tid: u32) -> (V, String) {
+/// 30 samples over 300 ms; mixed readings are re-measured over 3x and 9x longer windows.
+fn measure_all(tids: &[u32]) -> Vec<(V, String)> {
     let mut interval = Duration::from_millis(10);
-    let mut last = (V::Mixed, String::new());
-    for _ in 0..3 {
-        last = window(tid, 30, interval);
-        if last.0 != V::Mixed { return last; }
+    let mut res = window(tids, 30, interval);
+    for _ in 0..2 {
+        let again: Vec<usize> = (0..tids.len()).filter(|k| res[*k].0 == V::Mixed).collect();
+        if again.is_empty() { break; }
         interval *= 3;
+        let sub: Vec<u32> = again.iter().map(|k| tids[*k]).collect();
+        for (k, r) in again.iter().zip(window(&sub, 30, interval)) { res[*k] = r; }
     }
-    last
+    res
 }
 
 fn summarise(vs: &[V]) -> String {
@@ -231,7 +242,7 @@ pub fn child_main(line: &str) {
     }
     std::thread::sleep(Duration::from_millis(60));
     // quiet while idle?
-    let before: Vec<(V, String)> = tids.iter().map(|t| measure(*t)).collect();
+    let before: Vec<(V, String)> = measure_all(&tids);
     for (t, (v, d)) in tids.iter().zip(&before) { println!("R before tid{}={} {d}", t % 1000, v.name()); }
     child::progress();
     // the moment of the drop
@@ -251,8 +262,8 @@ pub fn child_main(line: &str) {
     child::progress();
     // give the threads a short time to go away, then look at those that are still there
     let t0 = Instant::now();
-    while t0.elapsed() < Duration::from_millis(400) && tids.iter().any(|t| task_stat(std::process::id(), *t).is_some()) { std::thread::sleep(Duration::from_millis(10)); }
-    let after: Vec<(V, String)> = tids.iter().map(|t| measure(*t)).collect();
+    while t0.elapsed() < Duration::from_millis(400) && tids.iter().any(|t| task_stat(std::process::id(), *t).is_some()) { child::progress(); std::thread::sleep(Duration::from_millis(10)); }
+    let after: Vec<(V, String)> = measure_all(&tids);
     for (t, (v, d)) in tids.iter().zip(&after) { println!("R after tid{}={} {d}", t % 1000, v.name()); }
     let left = tids.iter().filter(|t| task_stat(std::process::id(), **t).is_some()).count();
     let b: Vec<V> = if tids.is_empty() { vec![V::Exited] } else { before.iter().map(|x| x.0).collect() };
